@@ -19,4 +19,4 @@ INVARIANT Inv_C01
 INVARIANT Inv_C04
 INVARIANT Inv_C07
 INVARIANT Inv_C15
-CHECK_DEADLOCK FALSE
+CHECK_DEADLOCK TRUE
